@@ -132,7 +132,54 @@ def tables(tier, z):
     return out
 
 
+def readback(carrier, r):
+    vin, vout, iin, iout = g(r, "Vin (V)"), g(r, "Vout (V)"), g(r, "Iin (A)"), g(r, "Iout (A)")
+    if carrier == "conv-eff":
+        return abs(vout * iout / (vin * iin)) if iin else float("nan")
+    if carrier == "vloss-vdrop":
+        return abs(vin) - abs(vout)
+    if carrier == "rect-vdrop":
+        return (abs(vin) - abs(vout)) / 2.0
+    return iin - iout
+
+
+def check_pair(case):
+    """two tabulated components alive in ONE system and evaluated at the same (io, vi): neither may see the other's table."""
+    res = Res()
+    (c1, t1), (c2, t2) = case["a"], case["b"]
+    for Vq, Iq in case["queries"]:
+        comps = [dict(n="S", k="Source", a=dict(vo=Vq, rs=0.0), p=[], g="", r="")]
+        for j, (c, t) in enumerate(((c1, t1), (c2, t2)), 1):
+            cc = carrier_comp(c, t, 1 if Vq > 0 else -1)
+            comps.append(dict(n="X%d" % j, k=cc["k"], a=cc["a"], p=["S"], g="", r=""))
+            comps.append(dict(n="L%d" % j, k="ILoad", a=dict(ii=Iq), p=["X%d" % j], g="", r=""))
+        s = build(dict(name="pair", phases=None, comps=comps))
+        for rep in range(2):  # the second solve must agree with the first
+            try:
+                df, _ = quiet_call(s.solve)
+            except Exception as e:
+                res.v(("C10.pair-raises", type(e).__name__), "%s" % e)
+                break
+            o = observe(df)
+            res.stats["evaluations"] += 1
+            for j, (c, t) in enumerate(((c1, t1), (c2, t2)), 1):
+                val = readback(c, o[("", "X%d" % j)])
+                z = zkey(c)
+                flat = [v for row in t[z] for v in row]
+                tol = 1e-7 * max(flat) + (1e-9 if z != "ig" else 2e-8)
+                kind, e = expectation(t, z, Iq, abs(Vq))
+                bad = (abs(val - e) > tol) if kind == "exact" else (val < e[0] - tol or val > e[1] + tol)
+                single, _ = probe(c, t, Vq, Iq)
+                if bad or single is None or abs(single - val) > tol:
+                    res.v(("C10.pair-crosstalk", c, "solve#%d" % (rep + 1)), "tables %r / %r at io=%r vi=%r: component %d reads %r, alone it reads %r, expected %r" % (t1[zkey(c1)], t2[zkey(c2)], Iq, Vq, j, val, single, e))
+    res.nontrivial = 1
+    res.classes.add("pair")
+    return res
+
+
 def check_case(case):
+    if case.get("fam") == "pair":
+        return check_pair(case)
     res = Res()
     carrier, table = case["carrier"], case["table"]
     z = zkey(carrier)
@@ -192,6 +239,24 @@ def gen_cases(tier):
     for carrier in carriers:
         for t in tables(tier, zkey(carrier)):
             yield dict(carrier=carrier, table=t, tier=tier)
+    yield from gen_pairs(tier)
+
+
+def gen_pairs(tier):
+    io, vi = [0.0, 0.2, 0.9], [2.5, 5.0]
+    io2, vi2 = [0.1, 0.5], [1.0, 3.3, 12.0]
+    queries = [[3.3, 0.5], [5.0, 0.2], [12.0, 1.0], [1.0, 0.05], [20.0, 2.0], [-3.3, 0.5], [-20.0, 2.0], [4.0, 0.9], [2.5, 1.5]]
+    combos = [("vloss-vdrop", "vloss-vdrop"), ("pswitch-ig", "pswitch-ig"), ("conv-eff", "conv-eff"), ("linreg-ig", "pmux-ig"), ("rect-vdrop", "vloss-vdrop"), ("rect-ig", "pswitch-ig")]
+    for ca, cb in combos:
+        va, vb = VALS[zkey(ca)], VALS[zkey(cb)]
+        def T(c, vals, io_, vi_, k):
+            z = zkey(c)
+            rows = [[vals[(i + j + k) % 3] for j in range(len(io_))] for i in range(len(vi_))]
+            return {"vi": vi_, "io": io_, z: rows}
+        for k1, k2 in ((0, 1), (1, 2), (0, 0)):
+            yield dict(fam="pair", a=[ca, T(ca, va, io, vi, k1)], b=[cb, T(cb, vb, io, vi, k2)], queries=queries)        # same axes, different values
+            yield dict(fam="pair", a=[ca, T(ca, va, io, vi, k1)], b=[cb, T(cb, vb, io2, vi2, k2)], queries=queries)     # different axes
+        yield dict(fam="pair", a=[ca, {"vi": vi, "io": io, zkey(ca): [[va[0]] * 3, [va[0]] * 3]}], b=[cb, {"vi": vi, "io": io, zkey(cb): [[vb[2]] * 3, [vb[2]] * 3]}], queries=queries)  # two constant tables
 
 
 def replay(doc):
@@ -211,5 +276,5 @@ def main(tier):
         rule="E4: 7 carriers (Converter eff, VLoss vdrop, LinReg/PSwitch/PMux/Rectifier ig, Rectifier vdrop) x all 3^k value assignments of 1-D tables with 1..4 io points and of "
              "2x2 tables, five structured families (planar, saddle, monotone, constant, peak) for 2x3, 3x2, 3x3 (thorough: every 7th assignment as well) x the query lattice "
              "(every grid point, mid and quarter points of every edge, cell centres, outside in every direction incl. far outside and corners) x both supply signs. "
-             "evaluations = solve() calls of the probe system. non-trivial = table with at least one off-grid query. Lattice statement only (the property quantifies over the reals).",
+             "evaluations = solve() calls of the probe system. non-trivial = table with at least one off-grid query. Plus pairs of tabulated components (same / different axes, same / different carriers) alive in one system and queried at the same point, solved twice. Lattice statement only (the property quantifies over the reals).",
         assumptions=["parameter read back from solved Vin/Vout/Iin/Iout (1e-7 relative)", "inside a 2-D cell only the corner range is demanded (triangulation dependent)"])
